@@ -71,6 +71,8 @@ CASES = [
     ('Weibull', [2, 1], weibull), ('Weibull', [0.5, 1], weibull), ('Pareto', [3, 1], pareto), ('Frechet', [0, 2, 1], frechet),
     ('Weibull', [3, 2], weibull), ('Weibull', [0.5, 3], weibull), ('Pareto', [3, 2], pareto), ('Pareto', [0.25, 3], pareto), ('Frechet', [1, 3, 2], frechet), ('Frechet', [0, 0.5, 3], frechet),
     ('Triangular', [0, 1, 0.125], triangular), ('Triangular', [-8, -4, -5], triangular), ('Triangular', [0, T10, 768], triangular), ('Triangular', [0, Tm10, Tm10 / 4], triangular),
+    # scale far from 1 TOGETHER with a large shape (scale^shape is far outside the f32 range: a sampler that forms it would fail)
+    ('Frechet', [0, Tm10, 20], frechet), ('Frechet', [1, T10, 25], frechet), ('Pareto', [Tm10, 20], pareto), ('Pareto', [T10, 25], pareto), ('Weibull', [Tm10, 20], weibull), ('Weibull', [T10, 25], weibull),
 ]
 
 
